@@ -434,12 +434,14 @@ def gen_sizes(rng, tier):
         for kind in kinds:
             kids = [_LEAVES[i % 7] if i % 97 else [b"in", None] for i in range(w)]
             tree = kids if kind == "a" else ("o", [(b"k%d" % i, k if k is not None else True) for i, k in enumerate(kids)])
-            last = [CONTINUE] * w + [rng.choice([SKIP, POP, STOP, ERROR, rng.choice(INVALID)])]
+            plain, _ = ref_visit(tree, [])
+            at_last = max(i for i, c in enumerate(plain) if c.endswith(" 1") and c.split(" ")[1] == "0")
+            last = [CONTINUE] * at_last + [rng.choice([SKIP, POP, STOP, ERROR, rng.choice(INVALID)])]
             mid = [CONTINUE] * rng.randint(w // 3, w // 2) + [POP]
             if w < 60000 or thorough:
                 scheds = [[], last, mid]
-            else:
-                scheds = [[[]], [mid], [last]][w % 3]
+            else:                     # the plain traversal always; one answer at the far end or in the middle
+                scheds = [[], mid if kind == "o" else last]
             emit(tree, scheds, "wide")
     # many nodes, moderate depth and width
     for _ in range(4 if thorough else 1):
